@@ -274,3 +274,58 @@ def next_instruction(w, r, cfg):
         return ins
     k = prng.weighted(r, table)
     return GEN[k](w, r, cfg)
+
+
+SWEEP_FINAL_OPS = ['apply', 'ite', 'quant', 'let', 'cube', 'var', 'add_expr', 'copy', 'image', 'find_or_add',
+                   'fop', 'reorder', 'swap', 'pairs', 'to_expr', 'load', 'probe']
+
+
+def sweep_tail(w, r, cfg):
+    """Final instructions of a position-sweep run (same prefix in the whole
+    group; only the position differs)."""
+    sw = cfg.get('sweep')
+    if not sw:
+        return
+    from ddsim import profiles
+    i = sw['index']
+    if sw['kind'] == 'arm':
+        k = r.choice([x for x in SWEEP_FINAL_OPS if x in GEN])
+        final = GEN[k](w, r, cfg)
+        final['keep'] = True
+        yield dict(op='configure', on=1)
+        yield dict(op='arm', j=i)
+        yield final
+        yield dict(op='apply', sym='and', a=_ri(r), b=_ri(r), keep=False)
+    elif sw['kind'] == 'final':
+        k = r.choice(['apply', 'fop', 'quant', 'let', 'reorder', 'reorder', 'add_expr', 'traverse', 'gc', 'copy'])
+        final = GEN[k](w, r, cfg) if k in GEN else gen_apply(w, r, cfg)
+        # park a few handles, then let the finalizers run at point i
+        for _ in range(3):
+            yield dict(op='drop', a=_ri(r), mode='late')
+        if final.get('op') == 'reorder':
+            final['perm'] = None
+        yield dict(op='arm_final', k=1 + i)
+        yield final
+        yield dict(op='finalize')
+    elif sw['kind'] == 'disk':
+        pos = profiles.SWEEP_POS[i]
+        what = r.choice(['dump_write', 'load_read', 'load_read', 'dump_shelf'])
+        fmt = r.choice(['pickle', 'json']) if w.flavor == 'autoref' else 'pickle'
+        roots = [_ri(r) for _ in range(r.randint(1, 3))]
+        asd = r.randrange(2)
+        tgt = r.choice([0, 1, 2])
+        lv = r.randrange(2)
+        if what == 'load_read':
+            yield dict(op='dump', m=0, fmt=fmt, roots=roots, as_dict=asd, file=7, filetype=0, fault=None)
+            yield dict(op='load', file=_ri(r), target=tgt, levels=lv, load_order=0, positional=0, direct=0,
+                       fault=dict(kind='read', pos=pos, err=0), only='f7')
+        elif what == 'dump_shelf' and fmt == 'json':
+            yield dict(op='dump', m=0, fmt='json', roots=roots, as_dict=asd, file=7, filetype=0,
+                       fault=dict(kind='shelf', pos=i, err=0))
+            yield dict(op='load', file=_ri(r), target=tgt, levels=lv, load_order=0, positional=0, direct=0, fault=None, only='f7')
+        else:
+            yield dict(op='dump', m=0, fmt=fmt, roots=roots, as_dict=asd, file=7, filetype=0,
+                       fault=dict(kind='write', pos=pos, err=0))
+            yield dict(op='load', file=_ri(r), target=tgt, levels=lv, load_order=0, positional=0, direct=0, fault=None, only='f7')
+        yield dict(op='gc')
+        yield dict(op='apply', sym='or', a=_ri(r), b=_ri(r), keep=False)
